@@ -9,6 +9,7 @@
 -/
 import Desync.Proofs.SparseSysProofs
 import Desync.Generated.Facts
+import Desync.Proofs.SparseConcProofs
 
 namespace Desync.C10
 open Desync
@@ -59,6 +60,42 @@ theorem stale_state_counterexample_pinned :
     let s3 := SparseSt.open cxFetch cxChunks 0 1 s2.file (some saved) none 0
     r1.1 = .data [1] false ∧ saved = [true] ∧ s2.file = [0] ∧ s2.done = [false] ∧
     (s3.readAt cxFetch 0 1).1 = .data [0] false := open_stale_scenario
+
+/-! ### concurrent readers: every interleaving -/
+
+/-- **all interleavings**: with any number of concurrent readers and any store failures, a reader
+    that returns successfully has read a range that held the blob's bytes — never the unpopulated
+    zeros of the cache file -/
+theorem concurrent_read_sees_blob (isNull : List Bool) (k : Nat) (s : SparseConc.St)
+    (h : SparseConc.Reachable (SparseConc.St.init isNull k) s) (r : Nat) (range : List Nat) (sawBlob : Bool)
+    (hr : s.readers[r]? = some (.returned true range sawBlob)) : sawBlob = true :=
+  SparseConc.read_sees_blob isNull k s h r range sawBlob hr
+
+/-- at most one loader per chunk at any time (one store request per chunk, no write after done) -/
+theorem concurrent_single_loader (isNull : List Bool) (k : Nat) (s : SparseConc.St)
+    (h : SparseConc.Reachable (SparseConc.St.init isNull k) s) (r1 r2 i : Nat) (pc1 pc2 : SparseConc.PC)
+    (h1 : s.readers[r1]? = some pc1) (h2 : s.readers[r2]? = some pc2)
+    (hh1 : pc1.holds = some i) (hh2 : pc2.holds = some i) : r1 = r2 :=
+  SparseConc.single_loader isNull k s h r1 r2 i pc1 pc2 h1 h2 hh1 hh2
+
+/-- no deadlock and no lost wake-up: every active reader can move, or waits for a mutex whose
+    holder (another reader) can move -/
+theorem concurrent_no_deadlock (isNull : List Bool) (k : Nat) (s : SparseConc.St)
+    (h : SparseConc.Reachable (SparseConc.St.init isNull k) s) (r : Nat) (pc : SparseConc.PC)
+    (hr : s.readers[r]? = some pc) (hact : pc ≠ .idle ∧ ∀ ok rg sb, pc ≠ .returned ok rg sb) :
+    (∃ e s', SparseConc.step s e = some s') :=
+  (SparseConc.no_deadlock isNull k s h r pc hr hact).1
+
+/-- a failed load leaves the chunk not done and its mutex free: the next reader loads it again -/
+theorem concurrent_failed_load_retried (isNull : List Bool) (k : Nat) (s s' : SparseConc.St)
+    (h : SparseConc.Reachable (SparseConc.St.init isNull k) s) (r i : Nat) (range todo : List Nat)
+    (hr : s.readers[r]? = some (.fetching range todo i)) (hs : SparseConc.step s (.fetchFail r) = some s') :
+    s'.done.getD i false = false ∧ s'.lock.getD i none = none :=
+  let h' := SparseConc.fetchFail_not_done isNull k s s' h r i range todo hr hs
+  ⟨h'.1, h'.2.1⟩
+
+/-- the machine's step order is the regenerated one -/
+theorem gen_conc_shape : Gen.sparseLoadChunkShape = SparseConc.modelledShape := by decide
 
 /-- the order of operations in `loadChunk` is the one the models implement (no `sync.Once`, the
     done bit is read under the chunk mutex before the store call and set after the write) -/
